@@ -589,10 +589,13 @@ def rule_cli2(prog, rep, tier, anchor="__main__.main", sub="sync"):
                 "CLI-2", q, "none-deref:%s" % src(node, 60),
                 "%s; reachable for %d accepted/unrejected option combination(s), e.g. --truth %s with only %s given"
                 % (what, len(states), truth, ", ".join("--" + g.replace("_", "-") for g in given) or "nothing"), loc(prog, node)))
-    for (q, text), (node, why, fn) in sorted(order_seen.items()):
+    if order_seen:
+        items = sorted(order_seen.items())
+        (q0, text0), (node0, why0, fn0) = items[0]
         rep.violation(Finding(
-            "CLI-2", q, "positional-use-of-reordered-list:%s" % text,
-            "%s takes an element by position from an option list that the rebuilt namespace passed through %s: which file is `the first` (the truth) "
-            "no longer depends on the order given on the command line" % (text, why), loc(prog, node)))
+            "CLI-2", anchor, "reordered-option-lists:%s" % why0.split(" in ")[0],
+            "the namespace handed to the sync worker is rebuilt with option lists passed through %s, and elements are then taken from such lists by position (%s): "
+            "which file is `the first` (the truth) no longer depends on the order given on the command line"
+            % (why0, "; ".join("%s in %s" % (t_, q_) for (q_, t_), _ in items[:3])), loc(prog, node0)))
     rep.ob("CLI-2", "%d option-presence states x truth kinds interpreted through main and the sync worker; %d not rejected" % (n_states, n_accepted),
            "holds" if not seen else "violation", loc(prog, branch), "%d None-dereference site(s)" % len(seen))
